@@ -70,67 +70,67 @@ func (m *contractsModel) entryPermKinds(fn *ssa.Function) (kinds []string, known
 // object belongs to (per contract), Admin = an available governance admin, Specific = the listed contracts only.
 // A kind that is not in an entry's line widens who may call it and is reported; dropping a kind is not.
 var permReference = map[string]string{
-	"AppchainManager.ActivateAppchain": "Admin,Self",
-	"AppchainManager.FreezeAppchain": "Admin",
-	"AppchainManager.LogoutAppchain": "Self",
-	"AppchainManager.Manage": "Specific",
-	"AppchainManager.PauseAppchain": "Specific",
-	"AppchainManager.UnPauseAppchain": "Specific",
-	"AppchainManager.UpdateAppchain": "Self",
-	"DappManager.ActivateDapp": "Admin,Self",
-	"DappManager.ConfirmTransfer": "Self",
-	"DappManager.FreezeDapp": "Admin",
-	"DappManager.Manage": "Specific",
-	"DappManager.TransferDapp": "Self",
-	"DappManager.UpdateDapp": "Self",
-	"GovStrategy.Manage": "Specific",
-	"GovStrategy.UpdateAllProposalStrategy": "Admin",
-	"GovStrategy.UpdateProposalStrategy": "Admin",
+	"AppchainManager.ActivateAppchain":                "Admin,Self",
+	"AppchainManager.FreezeAppchain":                  "Admin",
+	"AppchainManager.LogoutAppchain":                  "Self",
+	"AppchainManager.Manage":                          "Specific",
+	"AppchainManager.PauseAppchain":                   "Specific",
+	"AppchainManager.UnPauseAppchain":                 "Specific",
+	"AppchainManager.UpdateAppchain":                  "Self",
+	"DappManager.ActivateDapp":                        "Admin,Self",
+	"DappManager.ConfirmTransfer":                     "Self",
+	"DappManager.FreezeDapp":                          "Admin",
+	"DappManager.Manage":                              "Specific",
+	"DappManager.TransferDapp":                        "Self",
+	"DappManager.UpdateDapp":                          "Self",
+	"GovStrategy.Manage":                              "Specific",
+	"GovStrategy.UpdateAllProposalStrategy":           "Admin",
+	"GovStrategy.UpdateProposalStrategy":              "Admin",
 	"GovStrategy.UpdateProposalStrategyByRolesChange": "Specific",
-	"Governance.EndObjProposal": "Specific",
-	"Governance.LockLowPriorityProposal": "Specific",
-	"Governance.SubmitProposal": "Specific",
-	"Governance.UnLockLowPriorityProposal": "Specific",
-	"Governance.UpdateAvailableElectorateNum": "Specific",
-	"Governance.WithdrawProposal": "Self",
-	"Governance.ZeroPermission": "Specific",
-	"InterBroker.InvokeInterchain": "Specific",
-	"InterBroker.InvokeReceipt": "Specific",
-	"InterchainManager.DeleteInterchain": "Specific",
-	"NodeManager.BindNode": "Specific",
-	"NodeManager.LogoutNode": "Admin",
-	"NodeManager.Manage": "Specific",
-	"NodeManager.ManageBindNode": "Specific",
-	"NodeManager.RegisterNode": "Admin",
-	"NodeManager.UnbindNode": "Specific",
-	"NodeManager.UpdateNode": "Admin,Self",
-	"RoleManager.ActivateRole": "Admin,Self",
-	"RoleManager.BindRole": "Admin",
-	"RoleManager.FreeAccount": "Specific",
-	"RoleManager.FreezeRole": "Admin",
-	"RoleManager.LogoutRole": "Admin,Self",
-	"RoleManager.Manage": "Specific",
-	"RoleManager.OccupyAccount": "Specific",
-	"RoleManager.PauseAuditAdmin": "Specific",
-	"RoleManager.PauseAuditAdminBinding": "Specific",
-	"RoleManager.RegisterRole": "Admin",
-	"RoleManager.RestoreAuditAdminBinding": "Specific",
-	"RoleManager.UpdateAppchainAdmin": "Specific",
-	"RuleManager.ClearRule": "Specific",
-	"RuleManager.LogoutRule": "Self",
-	"RuleManager.Manage": "Specific",
-	"RuleManager.RegisterRule": "Self",
-	"RuleManager.RegisterRuleFirst": "Specific",
-	"RuleManager.UpdateMasterRule": "Self",
-	"ServiceManager.ActivateService": "Admin,Self",
-	"ServiceManager.FreezeService": "Admin",
-	"ServiceManager.LogoutService": "Self",
-	"ServiceManager.Manage": "Specific",
-	"ServiceManager.RecordInvokeService": "Specific",
-	"ServiceManager.RegisterService": "Self",
-	"ServiceManager.UnPauseChainService": "Specific",
-	"ServiceManager.UpdateService": "Self",
-	"ServiceRegistry.Manage": "Specific",
+	"Governance.EndObjProposal":                       "Specific",
+	"Governance.LockLowPriorityProposal":              "Specific",
+	"Governance.SubmitProposal":                       "Specific",
+	"Governance.UnLockLowPriorityProposal":            "Specific",
+	"Governance.UpdateAvailableElectorateNum":         "Specific",
+	"Governance.WithdrawProposal":                     "Self",
+	"Governance.ZeroPermission":                       "Specific",
+	"InterBroker.InvokeInterchain":                    "Specific",
+	"InterBroker.InvokeReceipt":                       "Specific",
+	"InterchainManager.DeleteInterchain":              "Specific",
+	"NodeManager.BindNode":                            "Specific",
+	"NodeManager.LogoutNode":                          "Admin",
+	"NodeManager.Manage":                              "Specific",
+	"NodeManager.ManageBindNode":                      "Specific",
+	"NodeManager.RegisterNode":                        "Admin",
+	"NodeManager.UnbindNode":                          "Specific",
+	"NodeManager.UpdateNode":                          "Admin,Self",
+	"RoleManager.ActivateRole":                        "Admin,Self",
+	"RoleManager.BindRole":                            "Admin",
+	"RoleManager.FreeAccount":                         "Specific",
+	"RoleManager.FreezeRole":                          "Admin",
+	"RoleManager.LogoutRole":                          "Admin,Self",
+	"RoleManager.Manage":                              "Specific",
+	"RoleManager.OccupyAccount":                       "Specific",
+	"RoleManager.PauseAuditAdmin":                     "Specific",
+	"RoleManager.PauseAuditAdminBinding":              "Specific",
+	"RoleManager.RegisterRole":                        "Admin",
+	"RoleManager.RestoreAuditAdminBinding":            "Specific",
+	"RoleManager.UpdateAppchainAdmin":                 "Specific",
+	"RuleManager.ClearRule":                           "Specific",
+	"RuleManager.LogoutRule":                          "Self",
+	"RuleManager.Manage":                              "Specific",
+	"RuleManager.RegisterRule":                        "Self",
+	"RuleManager.RegisterRuleFirst":                   "Specific",
+	"RuleManager.UpdateMasterRule":                    "Self",
+	"ServiceManager.ActivateService":                  "Admin,Self",
+	"ServiceManager.FreezeService":                    "Admin",
+	"ServiceManager.LogoutService":                    "Self",
+	"ServiceManager.Manage":                           "Specific",
+	"ServiceManager.RecordInvokeService":              "Specific",
+	"ServiceManager.RegisterService":                  "Self",
+	"ServiceManager.UnPauseChainService":              "Specific",
+	"ServiceManager.UpdateService":                    "Self",
+	"ServiceRegistry.Manage":                          "Specific",
 }
 
 // c17PermTable: R17.9.
